@@ -200,6 +200,7 @@ class Rig:
         self.storage_opts = storage_opts or {}
         self.storage = None
         self.conns = []
+        self.stuck = []  # set by settle(): coroutine chains of tasks blocked on a lock nobody will release
 
     async def __aenter__(self):
         await self.open()
@@ -221,6 +222,14 @@ class Rig:
             from nostr_relay.storage.db import DBStorage
             from nostr_relay.storage import get_metadata
 
+            if self.file_db is True:
+                # a real file (connection pool of several connections, WAL) instead of one shared :memory: connection
+                import tempfile
+
+                base = os.path.join(bootstrap.VERIF, "out")
+                os.makedirs(base, exist_ok=True)
+                self._tmpdir = tempfile.mkdtemp(prefix="sqlite-", dir=base)
+                self.file_db = os.path.join(self._tmpdir, "nostr.sqlite3")
             url = "sqlite+aiosqlite:///" + (self.file_db or ":memory:")
             opts["sqlalchemy.url"] = url
             Config.storage = dict(opts)
@@ -269,6 +278,11 @@ class Rig:
             await s.close()
             if s.stat_collector._task:
                 s.stat_collector._task.cancel()
+        if getattr(self, "_tmpdir", None):
+            import shutil
+
+            shutil.rmtree(self._tmpdir, ignore_errors=True)
+            self._tmpdir = None
 
     # -- writer control (LMDB)
     def pump(self, k=None):
@@ -437,6 +451,7 @@ class Conn:
 
     def __init__(self, rig, addr, rate_limiter=None):
         self.rig = rig
+        self.addr = addr
         self.inbox = collections.deque()
         self.wake = asyncio.Event()
         self.out = []  # raw strings passed to ws_send
@@ -464,7 +479,10 @@ class Conn:
             while not self.inbox:
                 self.wake.clear()
                 await self.wake.wait()
-            m = self.inbox.popleft()
+            m, turns = self.inbox.popleft()
+            # a frame arrives some event-loop turns after the previous one was consumed
+            for _ in range(turns):
+                await asyncio.sleep(0)
         finally:
             self.in_recv = False
         if m is None:
@@ -475,11 +493,12 @@ class Conn:
     async def _close(self, code=1000):
         self.closed = code
 
-    def feed(self, msg):
-        """queue a message (object -> JSON text; str sent raw; None = disconnect)"""
+    def feed(self, msg, turns=1):
+        """queue a message (object -> JSON text; str sent raw; None = disconnect); `turns` event-loop
+        turns pass between the handler asking for the next frame and getting this one"""
         if msg is not None and not isinstance(msg, str):
             msg = json.dumps(msg, ensure_ascii=False)
-        self.inbox.append(msg)
+        self.inbox.append((msg, turns))
         self.wake.set()
 
     async def send(self, msg, settle_after=True):
@@ -506,17 +525,33 @@ class Conn:
 # ------------------------------------------------------------------ settle
 
 def _chain(task):
-    """(name, filename) of every coroutine frame the task is suspended in, outermost first"""
+    """(name, filename) of every coroutine / async-generator frame the task is suspended in, outermost first"""
+    import inspect
+
     coro = task.get_coro()
     out = []
     for _ in range(200):
-        code = getattr(coro, "cr_code", None) or getattr(coro, "gi_code", None)
+        code = (getattr(coro, "cr_code", None) or getattr(coro, "gi_code", None)
+                or getattr(coro, "ag_code", None))
         if code is None:
             break
         out.append((code.co_name, code.co_filename))
         nxt = getattr(coro, "cr_await", None)
         if nxt is None:
             nxt = getattr(coro, "gi_yieldfrom", None)
+        if nxt is None:
+            nxt = getattr(coro, "ag_await", None)
+        if nxt is not None and not any(hasattr(nxt, a) for a in ("cr_code", "gi_code", "ag_code")):
+            # awaiting asend() of an async generator: find that generator among the frame locals
+            frame = (getattr(coro, "cr_frame", None) or getattr(coro, "gi_frame", None)
+                     or getattr(coro, "ag_frame", None))
+            found = None
+            if frame is not None:
+                for v in list(frame.f_locals.values()):
+                    if inspect.isasyncgen(v) and v.ag_await is not None:
+                        found = v
+                        break
+            nxt = found
         if nxt is None:
             break
         coro = nxt
@@ -543,6 +578,7 @@ async def settle(rig, pump=True, budget=20000):
             continue
         busy = False
         sleeping = False
+        lockwait = []
         for t in asyncio.all_tasks(loop):
             if t is me or t.done() or t in periodic:
                 continue
@@ -558,6 +594,9 @@ async def settle(rig, pump=True, budget=20000):
             if name == "sleep" and fn.endswith("tasks.py"):
                 sleeping = True
                 continue
+            if name == "acquire" and fn.endswith("locks.py"):
+                lockwait.append(chain)  # waiting for a semaphore/lock somebody else must release
+                continue
             busy = True
         if busy or loop._ready:
             stable = 0
@@ -569,7 +608,9 @@ async def settle(rig, pump=True, budget=20000):
             stable = 0
             continue
         stable += 1
-        if stable >= 3:
+        if stable >= (50 if lockwait else 3):
+            # tasks still waiting for a lock while nothing else can run: a leaked lock/semaphore
+            rig.stuck = [[n for n, _ in ch][-4:] for ch in lockwait]
             return
 
 
